@@ -155,19 +155,20 @@ def shard_equiv(args):
     # one request per read and all of them back to back
     bc_fronts = [f for f in fronts if not f.startswith('tw-')]
     if framing != 'tls' and len(bc_fronts) > 1:
-        cfg = scenario.Cfg(False, (1, 2), True, False)
-        for n in (1, 2, 3):
-            for seq in itertools.product(('U0', 'R', 'W'), repeat=n):
-                if 'U0' not in seq:
-                    continue
-                k += 1
-                if k % parts != part:
-                    continue
-                for fam in ([f for f in bc_fronts if servers.FRONTS[f][0] == 'stream'], [f for f in bc_fronts if servers.FRONTS[f][0] != 'stream']):
-                    if len(fam) > 1:
-                        compare(acc, framing, cfg, seq, 'whole', fam, None)
-                        if n >= 2:
-                            compare(acc, framing, cfg, seq, 'burst', fam, None)
+        # (one context for every unit id; units 1 and 2; a map that hosts unit 0 itself)
+        for cfg in (scenario.Cfg(False, (1, 2), True, False), scenario.Cfg(True, (1,), True, False), scenario.Cfg(False, (0, 1), True, False)):
+            for n in (1, 2, 3):
+                for seq in itertools.product(('U0', 'R', 'W'), repeat=n):
+                    if 'U0' not in seq or (n == 3 and cfg.units != (1, 2)):
+                        continue
+                    k += 1
+                    if k % parts != part:
+                        continue
+                    for fam in ([f for f in bc_fronts if servers.FRONTS[f][0] == 'stream'], [f for f in bc_fronts if servers.FRONTS[f][0] != 'stream']):
+                        if len(fam) > 1:
+                            compare(acc, framing, cfg, seq, 'whole', fam, None)
+                            if n >= 2:
+                                compare(acc, framing, cfg, seq, 'burst', fam, None)
     acc.inc('states', k // parts)
     acc.add('nontrivial', ('equiv', framing))
     return acc
